@@ -318,18 +318,54 @@ def norm(x):
     return ("o", type(x).__name__, str(x))
 
 
+WD = [2.0]          # watchdog seconds; a time-out is confirmed with a longer one before it is reported (loaded machine)
+
+
+N_TIMEOUTS = [0]
+
+
+class TooManyTimeouts(Exception):
+    pass
+
+
 def outcome(thunk):
-    """run thunk under a watchdog; result list in normal form, or the class of the exception"""
-    try:
-        with watchdog(2):
-            res = thunk()
-            return ("ok", norm(list(res))[1])
-    except Timeout:
-        return ("TIMEOUT",)
-    except LenaStopFill:
-        return ("EXC", "LenaStopFill")
-    except Exception as e:                      # the class of the exception is the observable result
-        return ("EXC", type(e).__name__)
+    """run thunk (which builds everything afresh) under a watchdog; result list in normal form, or the class of the
+    exception.  After 3 confirmed time-outs the tree evidently hangs: no more confirmation, 0.5 s; after 40 the run is
+    abandoned (the failures found so far are kept, the evidence carries an error).  A result stream of more than 10000
+    values (every reference result has fewer than 100) is an endless generator and counts as non-termination."""
+    if N_TIMEOUTS[0] >= 40:
+        raise TooManyTimeouts("more than 40 non-terminating driver runs; harness abandoned")
+    for secs in ((WD[0], 6.0) if N_TIMEOUTS[0] < 3 else (0.5,)):
+        try:
+            with watchdog(secs):
+                res = list(itertools.islice(iter(thunk()), 10001))
+                if len(res) > 10000:
+                    return ("TIMEOUT", "endless result stream")
+                return ("ok", norm(res)[1])
+        except Timeout:
+            continue
+        except LenaStopFill:
+            return ("EXC", "LenaStopFill")
+        except Exception as e:                      # the class of the exception is the observable result
+            return ("EXC", type(e).__name__)
+    N_TIMEOUTS[0] += 1
+    return ("TIMEOUT",)
+
+
+def confirmed(R, check, *args):
+    """run an adapter check into a buffer; if it reports a time-out, repeat it once with a 10 s watchdog"""
+    c = _Collect()
+    check(c, *args)
+    if any("TIMEOUT" in f[0] or "TIMEOUT" in f[1] for f in c.fails):
+        WD[0] = 10.0
+        try:
+            c = _Collect()
+            check(c, *args)
+        finally:
+            WD[0] = 2.0
+    for f in c.fails:
+        R.fail(*f)
+    return not c.fails
 
 
 # ---- the reference -------------------------------------------------------------------------------------------
@@ -543,6 +579,8 @@ class Shrinker(object):
             for ch, fl in cands:
                 try:
                     bad = disagrees(d, ch, fl)
+                except TooManyTimeouts:
+                    raise
                 except Exception:
                     bad = False
                 if bad:
@@ -696,7 +734,7 @@ def status(desc, name):
 
 def construct(thunk):
     try:
-        with watchdog(2):
+        with watchdog(WD[0]):
             return ("ok", thunk())
     except LenaTypeError:
         return ("LenaTypeError", None)
@@ -708,7 +746,7 @@ def construct(thunk):
 
 def probe(thunk):
     try:
-        with watchdog(2):
+        with watchdog(WD[0]):
             return ("ok", thunk())
     except Timeout:
         return ("TIMEOUT", None)
@@ -912,7 +950,12 @@ class _Collect(object):
         self.fails = []
 
     def fail(self, fid, what, witness=None, replay=None):
-        self.fails.append(fid)
+        self.fails.append((fid, what, witness, replay))
+
+    def check(self, cond, fid, what, witness=None, replay=None):
+        if not cond:
+            self.fail(fid, what, witness, replay)
+        return cond
 
 
 # ---- implicit conversions by the sequences (same table) ---------------------------------------------------------
@@ -1382,7 +1425,7 @@ def body(R):
                                 and not (arg[0] == "my" and arg[1] == "request"):
                             continue
                         R.case(True, {"kind": describe(desc), "adapter": adapter, "arg": arg} if i == 1 else None)
-                        check_adapter_case(R, desc, adapter, arg, beh)
+                        confirmed(R, check_adapter_case, desc, adapter, arg, beh)
 
     # ---- scope 5: implicit conversions by the sequences --------------------------------------------------------------
     sts5 = sts if thorough else [s for s in sts if s[3] == ABSENT and s[5] == ABSENT]
@@ -1396,7 +1439,7 @@ def body(R):
                 desc = (st, has_call, cbf, False)
                 for form, accept in seq_cases(desc):
                     R.case(True)
-                    check_seq_case(R, desc, form, accept)
+                    confirmed(R, check_seq_case, desc, form, accept)
 
     # ---- scope 6: real framework elements ---------------------------------------------------------------------------
     R.scope("adapters on real framework elements",
@@ -1407,7 +1450,7 @@ def body(R):
     for name in sorted(REAL):
         for adapter in sorted(ADAPTERS):
             R.case(True)
-            check_real(R, name, adapter)
+            confirmed(R, check_real, name, adapter)
     # Run(None, run=f): the generator function itself is the run method
     R.case(True)
     g = lambda flow: (("g", v) for v in flow)
